@@ -192,6 +192,11 @@ def apply_op(root, op, state):
         if a.exists():
             b.parent.mkdir(parents=True, exist_ok=True)
             a.rename(b)
+    elif kind == "copy":
+        a, b = Path(root) / op[1], Path(root) / op[2]
+        if a.exists():
+            b.parent.mkdir(parents=True, exist_ok=True)
+            shutil.copy(a, b)
     elif kind == "touch":
         f = Path(root) / op[1]
         if f.exists():
@@ -241,7 +246,8 @@ def c09_sequences(tier, rnd):
     ops = [("write", "a.py", "long"), ("write", "a.py", "other"), ("write", "sub/c.py", "short"), ("delete", "a.py"), ("rename", "a.py", "d.py"),
            ("rename", "b.js", "b.py"), ("touch", "b.js"), ("swap", "a.py", "sub/c.py"), ("exclude",), ("cache-other-version",),
            ("cache-bad-checksum",), ("cache-no-version",), ("cache-null-version",), ("write", "b.js", "long"), ("delete", "sub/c.py"),
-           ("layout", "sub/c.py", "blank-top"), ("layout", "a.py", "ws-line"), ("layout", "b.js", "trailing")]
+           ("layout", "sub/c.py", "blank-top"), ("layout", "a.py", "ws-line"), ("layout", "b.js", "trailing"),
+           ("copy", "a.py", "a_copy.js"), ("copy", "b.js", "sub/b_copy.ts"), ("write", "e.py", "empty"), ("write", "e.c", "empty")]
     seqs = [[o] for o in ops]
     seqs += [list(c) for c in itertools.permutations(ops, 2)][:: (3 if tier == "quick" else 1)]
     for _ in range(30 if tier == "quick" else 400):
@@ -626,6 +632,10 @@ def run_c12(tmp, tier, rnd):
         # a non-UTF-8 (Latin-1) source with a long function, and a malformed one
         (root / "latin.py").write_bytes(("# caf\xe9\n" + body("py", "latin", 40)).encode("latin-1"))
         (root / "broken.js").write_text("function f( {\n" + "x;\n" * 40)
+        # hidden directories that no built-in exclusion names, holding long functions
+        for hd in (".tools/gen", "src/.cache"):
+            (root / hd).mkdir(parents=True, exist_ok=True)
+            (root / hd / "x.py").write_text(body("py", "hidden_dir_fn", 45))
         # long functions carrying the suppression marker: scan and check must agree on them too
         (root / "marked.py").write_text(body("py", "hidden", 40).replace("():", "():  # nocl", 1) + body("py", "shown", 41))
         (root / "marked.js").write_text(body("js", "hidden", 40).replace(") {", ") { // nocl", 1) + body("js", "shown", 41))
@@ -688,6 +698,30 @@ def run_c12(tmp, tier, rnd):
                 elif not hidden and got:
                     # scan skipped it (excluded or unsupported): check must skip it too
                     fails.append(("excluded-file-checked", f"check {rel} listed {got} but scan skips the file (excludes {ex})", None))
+    # (i) two codebases visited in one process, each holding a file with the same relative path but different content
+    set_excludes([])
+    (Path(tmp) / "w12").mkdir(exist_ok=True)
+    for rel in ("src/app.py", "app.py"):
+        roots = []
+        for k, (name, ln) in enumerate((("first", 40), ("second", 70))):
+            r = Path(tmp) / "w12" / f"cb{k}"
+            if r.exists():
+                shutil.rmtree(r)
+            (r / rel).parent.mkdir(parents=True, exist_ok=True)
+            (r / rel).write_text(body("py", name, ln))
+            roots.append((r, name, ln))
+        for r, name, ln in roots + roots[:1]:
+            n += 1
+            with cwd(r):
+                try:
+                    code, listed = run_check([rel])
+                except Exception as e:  # noqa
+                    fails.append(("exception", f"check {rel} in {r.name}: {type(e).__name__}: {str(e)[:100]}", None))
+                    continue
+                got = [(m[0], m[5]) for f, ms in listed for m in ms]
+                if got != [(name, ln)] or code != (1 if ln > 60 else 0):
+                    fails.append(("depends-on-earlier-check", f"check {rel} in codebase {r.name} (after the same relative path was checked in another "
+                                  f"codebase): listed {got} exit {code}, expected {[(name, ln)]}", None))
     return fails, n
 
 
@@ -719,6 +753,17 @@ def run_c03_paths(tmp, tier, rnd):
         ways += [("relative", root, f), ("absolute", root, str((root / f).resolve())), ("from-elsewhere-absolute", other, str((root / f).resolve())),
                  ("from-elsewhere-relative", other, os.path.relpath(root / f, other))]
     ways += [("root-dir", root, "."), ("dir-from-elsewhere", other, str(root.resolve())), ("dir-from-elsewhere-relative", other, "../proj")]
+    # symbolic links: a link outside the working directory that points into it, and the working directory reached through a link
+    try:
+        link_out = Path(tmp) / "w3" / "link-to-src"
+        os.symlink(root / "src", link_out)
+        link_root = Path(tmp) / "w3" / "proj-link"
+        os.symlink(root, link_root)
+        ways += [("symlink-outside-pointing-inside-absolute", root, str(link_out)), ("symlink-outside-pointing-inside-relative", root, "../link-to-src"),
+                 ("cwd-through-symlink-dot", link_root, "."), ("cwd-through-symlink-absolute-real", link_root, str(root.resolve())),
+                 ("cwd-real-absolute-through-link", root, str(link_root)), ("file-through-link", root, str(link_root / "long.py"))]
+    except OSError:
+        pass
     for way, wd, arg in ways:
         n += 1
         with cwd(wd):
@@ -757,7 +802,8 @@ def run_c02(tmp, tier, rnd):
     import re
     fails, n = [], 0
     root = Path(tmp) / "w2"
-    lengths = {"f15.py": 15, "f16.js": 16, "f30.c": 30, "f31.py": 31, "f60.js": 60, "f61.c": 61, "f90.py": 90, "g31.ts": 31}
+    lengths = {"f15.py": 15, "f16.js": 16, "f30.c": 30, "f31.py": 31, "f60.js": 60, "f61.c": 61, "f90.py": 90, "g31.ts": 31, "f60.ts": 60}
+    # f60.ts has the bytes of f60.js: one function of 60 lines, in another language
     root.mkdir(parents=True)
     for nm, ln in lengths.items():
         (root / nm).write_text(body(nm.rsplit(".", 1)[-1], "fn_" + nm.split(".")[0], ln))
@@ -827,9 +873,9 @@ def run_c02(tmp, tier, rnd):
     # was scanned before in the same process
     import re
     from codelimit.commands.scan import scan_command
-    trees = {"A": ["f31.py", "f61.c"], "B": ["f60.js", "f90.py", "f15.py"], "C": ["f30.c", "f31.py", "g31.ts"]}
+    trees = {"A": ["f31.py", "f61.c"], "B": ["f60.js", "f90.py", "f15.py"], "C": ["f30.c", "f31.py", "g31.ts"], "D": ["f60.js", "f60.ts", "f15.py"]}
     langs = {"py": "Python", "js": "JavaScript", "c": "C", "ts": "TypeScript"}
-    for order in (["A", "B"], ["B", "A", "C"], ["C", "C"]):
+    for order in (["A", "B"], ["B", "A", "C"], ["C", "C"], ["D"], ["A", "D"]):
         for t in order:
             tr = Path(tmp) / "w2" / ("tree" + t)
             if tr.exists():
@@ -940,6 +986,30 @@ def run_c06(tmp, tier, rnd):
     tg = {k: [[m["unit_name"], m["value"]] for m in v["measurements"]] for k, v in together.items()}
     if tg != alone:
         fails.append(("depends-on-other-files", f"files with identical bytes in different languages: together {tg} vs each alone {alone}", None))
+    # a scan that finds the report of an earlier scan: files added since then with the bytes of an already reported file in
+    # another language (a copied header, an empty module) get the language and measurements they have when analysed alone
+    shutil.copy(dup / "a_same.py", dup / "d_same.ts")
+    (dup / "__init__.py").write_text("")
+    scan(dup)
+    shutil.copy(dup / "b_same.js", dup / "e_same.cpp")
+    (dup / "index.js").write_text("")
+    (dup / "stub.c").write_text("")
+    second = norm(scan(dup))["codebase"]["files"]
+    n += 1
+    for nm, v in sorted(second.items()):
+        one = Path(tmp) / "w6" / "one"
+        if one.exists():
+            shutil.rmtree(one)
+        one.mkdir()
+        shutil.copy(dup / nm, one / nm)
+        p = subprocess.run([sys.executable, os.path.abspath(__file__), "--scan-files", str(one)], capture_output=True, text=True, timeout=300)
+        want_ms = json.loads(p.stdout.strip().splitlines()[-1]).get(nm)
+        got_ms = [[m["unit_name"], m["value"]] for m in v["measurements"]]
+        want_lang = SUPPORTED.get(ext_of(nm))
+        if got_ms != want_ms or v["language"] != want_lang:
+            fails.append(("depends-on-earlier-report", f"{nm} in a scan that reuses an earlier report: language {v['language']} measurements {got_ms}; "
+                          f"alone: language {want_lang} measurements {want_ms}", None))
+            break
     # names without an extension and mixed encodings, visited in both directory orders: each file's result is what it is alone
     mix = Path(tmp) / "w6" / "mix"
     mix.mkdir(parents=True)
